@@ -680,7 +680,7 @@ Definition compute (c : config) (w : world) : computed :=
 (* ---- writing the output ---- *)
 
 (* [flush]: does the code flush Stdout (and check the result) after write_all?
-   main.rs as repaired by the fix: commit does; the code as first written did not *)
+   main.rs does since the fix: commit; the code as first written did not *)
 Definition emit_gen (flush : bool) (c : config) (w : world) (cm : computed) : result :=
   match cm with
   | CUsage => usage_result
@@ -708,8 +708,9 @@ Definition emit_gen (flush : bool) (c : config) (w : world) (cm : computed) : re
       end
   end.
 
-(* main.rs as it stands: write_all only, no flush *)
-Definition CODE_FLUSHES : bool := false.
+(* main.rs as it stands (since the fix: commit "flush stdout and report a failed
+   write of the final unterminated line"): write_all, then flush, both checked *)
+Definition CODE_FLUSHES : bool := true.
 
 Definition emit := emit_gen CODE_FLUSHES.
 Definition run_gen (flush : bool) (c : config) (w : world) : result := emit_gen flush c w (compute c w).
